@@ -48,7 +48,8 @@ class ClockAndHistory(Harness):
                  "a drift change at t=2",
         "thorough": "adds two markets with a solver-chosen market per order, and a concrete 205-step run across the real 100-step chunks",
     }
-    assumptions = ("chunk sizes are shrunk through Market.chunk_size / Fundamentals._generate_chunk_size so that chunk "
+    assumptions = (rn.REDUCTION_NOTE,
+                   "chunk sizes are shrunk through Market.chunk_size / Fundamentals._generate_chunk_size so that chunk "
                    "boundaries are crossed within a few steps (the thorough tier adds an unmodified 205-step run)",)
     outside = ("negative time indices (the statement speaks of times later than the current time)",)
     agreement_runs = 4
